@@ -76,7 +76,7 @@ def premainLine : String :=
   " strtol " ++ (match strtolE 64 (mem " \t-0x7fZ") 0 with | some (v, e, _) => hex64 v ++ " " ++ toString e | none => "fault") ++
   " strtoull " ++ (match strtoullE 64 (mem "18446744073709551616") 10 with
                    | some (v, _, err) => hexOfNat 16 v ++ " " ++ (if err = 0 then "0" else errName err) | none => "fault") ++
-  " qsort " ++ (match sorted with | some out => showElems true (canonRuns cmp pairLe out) | none => "fault") ++
+  " qsort " ++ (match sorted with | some out => showElems true (canonLex cmp pairLe out) | none => "fault") ++
   " bsearch " ++ bs 5 ++ " " ++ bs 3 ++ " " ++ bs 9
 
 def stRun (fn : String) (base : Nat) (mem : List Byte) : Option String :=
@@ -127,7 +127,7 @@ def stepLine (_ : Unit) (line : String) : Unit × String :=
           let cmp : (Int × Nat) → (Int × Nat) → Int := fun x y => cmpK x.1 y.1
           match qsort cmp (randStream (n + 1) (seed % 2 ^ 32)) keys.zipIdx with
           | none => pure "fault"
-          | some (out, _) => pure (toString n ++ " " ++ rleLine (canonRuns cmpK (fun a b => decide (a ≤ b)) (out.map (·.1))))
+          | some (out, _) => pure (toString n ++ " " ++ rleLine (canonLex cmpK (fun a b => decide (a ≤ b)) (out.map (·.1))))
         else
           pure (toString n ++ " " ++ rleLine (keys.mergeSort fun a b => cmpK a b < 0 || (cmpK a b == 0 && a ≤ b)))
     | ["atL", fn, pre, unit, count, tail] => do
@@ -155,7 +155,7 @@ def stepLine (_ : Unit) (line : String) : Unit × String :=
             match qsort cmp rs a with
             | none => none
             | some (out, rs') =>
-              some (out, rs', acc ++ [showElems (esize > 1) (canonRuns cmp pairLe (out.map fun e => (e.1, if esize > 1 then e.2 else 0)))])
+              some (out, rs', acc ++ [showElems (esize > 1) (canonLex cmp pairLe (out.map fun e => (e.1, if esize > 1 then e.2 else 0)))])
         match kinds.foldl step (some (keys.zipIdx, randStream ((n + 1) * kinds.length) (seed % 2 ^ 32), [])) with
         | none => pure "fault"
         | some (out, _, acc) =>
@@ -227,7 +227,7 @@ def stepLine (_ : Unit) (line : String) : Unit × String :=
         | none => pure "fault"
         | some (out, _) =>
           -- canonical form: the arrangement inside a run of equal elements is not fixed by the property
-          pure (showElems (esize > 1) (canonRuns cmp pairLe (out.map fun e => (e.1, if esize > 1 then e.2 else 0))))
+          pure (showElems (esize > 1) (canonLex cmp pairLe (out.map fun e => (e.1, if esize > 1 then e.2 else 0))))
     | [bd, _, kind, key, keys] => do
         let kind ← kind.toNat?
         let key ← key.toInt?
